@@ -67,6 +67,8 @@ class Reference:
         self.fatal_hit = False
         self.failed = {}
         self.labels = {}
+        self.cand_causes = {}
+        self.flags = {}  # finding id -> nodes whose behaviour puts the case into that finding's region
 
     # ------------------------------------------------------------------ body with retry/default policy
     def _execute(self, nid, kwargs):
@@ -174,7 +176,13 @@ class Reference:
             self.labels[(consumer, kw)] = label if isinstance(label, str) else None
             if not isinstance(label, str) or label not in cases:
                 raise RefFail([('switch', consumer, kw, label)])
-            v = self.need(cases[label])
+            try:
+                v = self.need(cases[label])
+            except RefFail:
+                if len(self.frames) > 1:
+                    # F9: the selected case of a switch fails inside the sub-pipeline of a one-of candidate
+                    self.flags.setdefault('F9', set()).add((consumer, kw))
+                raise
             if isinstance(v, RecMarker):
                 self.ambiguous.append(f'case node {cases[label]} returned Recurrent')
                 raise RefFail([('rec', cases[label])])
@@ -194,6 +202,7 @@ class Reference:
                 except RefFail as f:
                     fr = self.frames.pop()
                     self.maybe |= fr
+                    self.cand_causes[(consumer, kw, c)] = list(f.causes)
                     fatal = [c_ for c_ in f.causes if c_[0] == 'fatal']
                     if fatal:
                         # a BaseException is not an ordinary failure: it is not contained by the one-of
@@ -288,11 +297,11 @@ class Reference:
                 if nid in req and c not in seen:
                     seen.append(c)
             res['causes'] = seen
-        certain = self.frames[0] if res['ok'] else set()
+        certain = self.frames[0]
         res.update(
             invocations=self.invocations, defaults=self.defaults, executions=self.executions,
-            demanded=set(self.all_demanded), certain=set(certain), maybe=self.all_demanded - set(certain),
-            finals=dict(self.finals), ambiguous=list(self.ambiguous), fatal=self.fatal_hit,
+            demanded=set(self.all_demanded), certain=set(certain) if res['ok'] else set(), maybe=self.all_demanded - set(certain),
+            finals=dict(self.finals), ambiguous=list(self.ambiguous), fatal=self.fatal_hit, flags=dict(self.flags), cand_causes=dict(self.cand_causes),
             work=sum(len(v) for v in self.invocations.values()) * 3 + self.timers + 10,
             not_demanded={n['id'] for n in self.p['nodes']} - self.all_demanded,
         )
